@@ -49,6 +49,7 @@ type Contract struct {
 	PropProps []string
 	ErrIgnorable *Clause // when true (over the results) the caller may drop the returned error
 	ParamNames []string // optional positional parameter names given in the contract header
+	RecvAlias  string   // optional name of the receiver given in the contract header
 	Assigns  []string
 	HasAssigns bool
 	Loops    map[int]*LoopSpec
@@ -220,13 +221,23 @@ func (cs *ContractSet) parseFile(pkg, file, text string) error {
 		switch kw {
 		case "func":
 			var pnames []string
+			recvAlias := ""
 			if op := strings.Index(rest, "("); op >= 0 && strings.HasSuffix(rest, ")") {
-				for _, n := range strings.Split(rest[op+1:len(rest)-1], ",") {
-					pnames = append(pnames, strings.TrimSpace(n))
+				// header: func T.M(recv; p0, p1, ...) -- the names the contract uses for the receiver and the
+				// parameters, bound by POSITION (the code's own names stay usable as well)
+				list := rest[op+1 : len(rest)-1]
+				if semi := strings.Index(list, ";"); semi >= 0 {
+					recvAlias = strings.TrimSpace(list[:semi])
+					list = list[semi+1:]
+				}
+				if strings.TrimSpace(list) != "" {
+					for _, n := range strings.Split(list, ",") {
+						pnames = append(pnames, strings.TrimSpace(n))
+					}
 				}
 				rest = strings.TrimSpace(rest[:op])
 			}
-			cur = &Contract{Pkg: pkg, FuncName: rest, Key: pkg + "." + rest, ParamNames: pnames, Loops: map[int]*LoopSpec{}, MapRange: map[int]string{}, File: file, Line: ln}
+			cur = &Contract{Pkg: pkg, FuncName: rest, Key: pkg + "." + rest, ParamNames: pnames, RecvAlias: recvAlias, Loops: map[int]*LoopSpec{}, MapRange: map[int]string{}, File: file, Line: ln}
 			if _, dup := cs.Funcs[cur.Key]; dup {
 				return fmt.Errorf("%s:%d: duplicate contract for %s", file, ln, cur.Key)
 			}
